@@ -281,7 +281,12 @@ def s_mul(a, b):
                         return xr_simplify(XR(x.ninf, _f_mul(x.v, c), x.pinf))
                     if x.pinf is False and x.ninf is False:
                         return 0.0
-                    raise Unsupported("0 * inf")
+                    if x.pinf is True or x.ninf is True:
+                        raise Unsupported("0 * inf")
+                    from . import explore
+
+                    explore.EXP.obligation("0 * x: x is finite (0*inf would be NaN)", s_and(s_not(x.pinf), s_not(x.ninf)))
+                    return 0.0
                 # symbolic factor: sound only for a positive factor -> emitted as an obligation (checked, not assumed)
                 from . import explore
 
